@@ -7,6 +7,8 @@ import (
 	"context"
 	"encoding/xml"
 	"fmt"
+	"io"
+	"log/slog"
 	"net/http"
 	"net/http/httptest"
 	"net/url"
@@ -57,6 +59,8 @@ var (
 
 func c06GetEnv(scratch string) *c06Env {
 	c06EnvOnce.Do(func() {
+		// the server logs every request at Info level
+		slog.SetDefault(slog.New(slog.NewTextHandler(io.Discard, nil)))
 		dir := filepath.Join(filepath.Dir(scratch), "c06-env")
 		c06TheEnv = c06NewEnv(dir)
 	})
